@@ -1153,6 +1153,11 @@ class Triangle(_base.Base):
         # Hold off on division until the end, to (attempt to) avoid round-off.
         denominator = self._degree + 1.0
         new_nodes /= denominator
+        # The corners are unchanged by elevation; ``((d + 1) v) / (d + 1)``
+        # need not round-trip exactly, so copy them over.
+        new_nodes[:, 0] = self._nodes[:, 0]
+        new_nodes[:, self._degree + 1] = self._nodes[:, self._degree]
+        new_nodes[:, -1] = self._nodes[:, -1]
         return Triangle(new_nodes, self._degree + 1, copy=False, verify=False)
 
     def to_symbolic(self):
